@@ -9,13 +9,17 @@ RULE = ("MC: exhaustive TLC runs of the Adnl byte-level state machine (real SHA-
         "from {0,1,3,4,60,1000,65535} x target frame/region x segmentation) executed step by step against liteclient.NewConnection/"
         "Send/Responses over loopback TCP through the scripted reference server, and its spec-produced server->client byte stream "
         "fed to liteclient.ParsePacket; delivered payloads, counts, read sizes and failure are compared with the specification's. "
+        "Payload content classes: payloads starting with the tcp.pong / tcp.ping / tcp.authentificationNonce / tcp.authentificationComplete / "
+        "adnl.message.query / adnl.message.answer ids at lengths 4, 11, 12, 13, 16, 20, 64, 1000, each followed by a marker packet; Adnl.Absorbs says which "
+        "valid packets the connection keeps (a 12-byte pong; free for the authentication nonce), every other one must reach Responses() once, in order "
+        "(C11:packet-swallowed:<content class>; Absorb events judged by Adnl_Trace). "
         "Every packet object handed out by Responses()/ParsePacket is kept (not copied) and re-read after each later packet and at the end; "
         "a held payload that no longer equals the sent one is C11:payload-changed-after-delivery (Recheck events, judged by Adnl_Trace). "
         "C->S: every executed connection plus free-running echo sessions (random sizes 0..65536) is recorded (server seed, raw "
         "bytes as they arrived, API-level sends/deliveries) and Adnl_Trace decrypts and verifies it with Prim. "
         "distinct = scripts replayed (two modes each) + recorded connections accepted.")
 
-NCLS = 42
+NCLS = 48
 # divergences that are hard evidence by themselves: an object handed out by the API holds bytes other than the sent
 # payload while TLC verifies on the recorded stream that the server sent the right ones; no socket or timer is involved
 # in what was observed, and whether the recycled buffer is hit again depends on the Go scheduler - so no re-run is demanded
@@ -91,6 +95,13 @@ def check_generated(ck, vecs):
                 raise Infra("generator: script %d (%s) did not hit frame %d (hit=%s)" % (v["id"], name, v["j"], v["hit"]))
             if f == "none" and v["hit"] != [0, 0]:
                 raise Infra("generator: fault-free script %d has a hit" % v["id"])
+    for nm, want in (("pong", "yes"), ("authnonce", "free"), ("ping", "no"), ("authcomplete", "no"), ("query", "no"), ("answer", "no")):
+        vs = classes.get("none-s2c-ids-" + nm, [])
+        users = [s["user"] for v in vs for s in v["steps"] if s["k"] == "Dlv" and s["d"] == "s2c" and s.get("res") == "pkt" and s["idx"] % 2 == 0]
+        lens = {s["size"] for v in vs for s in v["steps"] if s["k"] == "Send" and s["d"] == "s2c" and s.get("pre")}
+        if not vs or lens != {4, 11, 12, 13, 16, 20, 64, 1000} or want not in users or (want == "yes" and users.count("yes") != len(vs)) \
+                or (want == "no" and set(users) != {"no"}):
+            raise Infra("generator: content class %s is not exercised as intended (%s, %s)" % (nm, sorted(lens), sorted(set(users))))
     shrink = [v for v in classes.get("none-s2c-shrink-none", []) if v["steps"][-1]["nd"][1] == 5]
     if not shrink:
         raise Infra("generator: no fault-free script with non-growing server->client payloads was delivered completely")
@@ -158,7 +169,8 @@ def run(ck):
                        "the reference server (harness/internal/adnlsrv, stdlib only) is itself judged by Adnl_Trace on every recorded connection",
                        "length bounds 64..8 MiB as stated by the property; the 8 MiB edge is exercised header-only",
                        "a client-side receiver that stops on a damaged frame is observable only as 'nothing more delivered' (tongo closes no channel)",
-                       "payloads beginning with the tcp.pong / tcp.authentificationNonce ids are consumed by Connection itself and are not used as test payloads"]
+                       "of the valid server->client packets the connection may keep exactly a 12-byte tcp.pong; a packet starting with the "
+                       "tcp.authentificationNonce id may be kept or handed on (authentication is outside C11); every other packet must reach Responses()"]
     ck.build_vh()
     shards = 12 if ck.thorough else 2
     count = 1500 if ck.thorough else NCLS
